@@ -128,3 +128,379 @@ def o_c03_table(ctx, desc, obs, model, kw):
                         trig = {"diode": c["args"].get("vdrop", 0.0) != 0.0}
                     ctx.oracle(desc, "passive_polarity", k, trig,
                                {"phase": p["phase"], "row": r["name"], "Vin": vin, "Vout": vout, "Iout": r["iout"]})
+
+
+# --------------------------------------------------------------------------------------------------- shared structure helpers
+
+SLEEPERS = ("converter", "linreg", "pswitch", "pmux")
+
+
+def declared_parents(desc):
+    owner = {c["rail"]: c["name"] for c in desc["comps"] if c.get("rail") and c["kind"] not in LOADS}
+    return {c["name"]: [owner.get(q, q) for q in c["parents"]] for c in desc["comps"]}
+
+
+def inactive_in(c, phase):
+    """phase configuration (a list) present and the phase not listed"""
+    pc = c.get("pconf")
+    if c["kind"] in LOADS or c["kind"] in ("rloss", "vloss", "rectifier"):
+        return False
+    return bool(pc) and phase not in pc
+
+
+def structural_dead(desc, phase):
+    """name -> True iff the component's OUTPUT is dead for a structural reason (decided from the inputs only)"""
+    comps = {c["name"]: c for c in desc["comps"]}
+    pars = declared_parents(desc)
+    dead = {}
+
+    def d(n):
+        if n in dead:
+            return dead[n]
+        c = comps[n]
+        if c["kind"] == "source":
+            r = c["args"]["vo"] == 0 or inactive_in(c, phase)
+        elif c["kind"] == "pmux":
+            r = all(d(p) for p in pars[n]) or inactive_in(c, phase)
+        else:
+            r = d(pars[n][0]) or inactive_in(c, phase)
+        dead[n] = r
+        return r
+    for n in comps:
+        d(n)
+    return dead
+
+
+def supply_dead(desc, phase):
+    """name -> True iff every supply of the component is structurally dead"""
+    dead = structural_dead(desc, phase)
+    pars = declared_parents(desc)
+    return {c["name"]: (bool(pars[c["name"]]) and all(dead[p] for p in pars[c["name"]])) for c in desc["comps"]}
+
+
+# --------------------------------------------------------------------------------------------------- C04
+
+def o_c04(ctx, desc, obs, model, kw):
+    comps = {c["name"]: c for c in desc["comps"]}
+    for p in obs["phases"]:
+        ph = p["phase"]
+        sdead = supply_dead(desc, ph)
+        odead = structural_dead(desc, ph)
+        rows = {r["name"]: r for r in p["rows"]}
+        hit = False
+        for r in p["rows"]:
+            c = comps[r["name"]]
+            k = c["kind"]
+            if sdead[r["name"]]:
+                hit = True
+                bad = {col: r[col] for col in ("vin", "vout", "iin", "iout", "pwr", "loss") if r[col] != 0.0}
+                if bad:
+                    ctx.oracle(desc, "dead_supply_all_zero", k, {}, {"phase": ph, "row": r["name"], "nonzero": bad})
+            elif odead[r["name"]]:
+                hit = True
+                if r["vout"] != 0.0:
+                    ctx.oracle(desc, "dead_element_outputs_zero", k, {}, {"phase": ph, "row": r["name"], "vout": r["vout"]})
+                if k in SLEEPERS and inactive_in(c, ph) and r["vin"] != 0.0:
+                    iis = abs(c["args"].get("iis", 0.0))
+                    want = iis * abs(r["vin"])
+                    if r["iin"] != iis or not solved.close(r["pwr"], want) or not solved.close(r["loss"], want):
+                        ctx.oracle(desc, "sleep_current", k, {}, {"phase": ph, "row": r["name"], "iis": iis, "Iin": r["iin"],
+                                   "Power": r["pwr"], "Loss": r["loss"], "Vin": r["vin"]})
+                if k == "source" and (r["iin"] != 0.0 or r["pwr"] != 0.0 or r["loss"] != 0.0):
+                    ctx.oracle(desc, "dead_source_zero", k, {}, {"phase": ph, "row": r["name"], "Iin": r["iin"], "Power": r["pwr"]})
+        if hit:
+            ctx.stats["phases_with_dead_element"] += 1
+
+
+# --------------------------------------------------------------------------------------------------- C05
+
+def o_c05(ctx, desc, obs, model, kw):
+    comps = {c["name"]: c for c in desc["comps"]}
+    pars = declared_parents(desc)
+    rails = {c["name"]: (c.get("rail", "") if c["kind"] not in LOADS else "") for c in desc["comps"]}
+    vtol, itol = kw.get("vtol", 1e-6), kw.get("itol", 1e-6)
+    for p in obs["phases"]:
+        ph = p["phase"]
+        rows = {r["name"]: r for r in p["rows"]}
+        feed = feeders(desc, rows)
+        first = {n: (q[0] if q else None) for n, q in pars.items()}
+        for c in desc["comps"]:
+            if c["kind"] != "pmux":
+                continue
+            r = rows[c["name"]]
+            ins = pars[c["name"]]
+            live = [q for q in ins if rows[q]["vout"] != 0.0]
+            pattern = "".join("L" if rows[q]["vout"] != 0.0 else "d" for q in ins)
+            ctx.stats["mux_pattern:" + pattern] += 1
+            trig = {"inputs": len(ins), "selected_index": ins.index(live[0]) if live else -1}
+            base = {"phase": ph, "mux": c["name"], "inputs": ins, "input_vout": [rows[q]["vout"] for q in ins]}
+            if not live:
+                bad = {col: r[col] for col in ("vout", "iin", "iout", "pwr", "loss") if r[col] != 0.0}
+                if bad:
+                    ctx.oracle(desc, "mux_dead", "pmux", trig, dict(base, nonzero=bad))
+                continue
+            sel = live[0]
+            k = ins.index(sel)
+            # reported parent / rail-in / input voltage / domain
+            if "parent" in r and r["parent"] != sel:
+                ctx.oracle(desc, "mux_reports_selected_parent", "pmux", trig, dict(base, reported=r["parent"], selected=sel))
+            if "railIn" in r and r["railIn"] != rails[sel]:
+                ctx.oracle(desc, "mux_reports_selected_rail", "pmux", trig, dict(base, reported=r["railIn"], selected_rail=rails[sel]))
+            if not solved.close(r["vin"], rows[sel]["vout"]):
+                ctx.oracle(desc, "mux_vin_is_selected", "pmux", trig, dict(base, vin=r["vin"], selected=sel))
+            if "domain" in r:
+                want = root_of(feed, first, sel)
+                if r["domain"] != want:
+                    ctx.oracle(desc, "mux_domain", "pmux", trig, dict(base, reported=r["domain"], expected=want))
+            # current is drawn from the selected input only
+            for q in ins:
+                others = sum(rows[x]["iin"] for x in rows if x != c["name"] and feed.get(x) == q)
+                want = others + (r["iin"] if q == sel else 0.0)
+                if abs(rows[q]["iout"] - want) > 8 * (solved.ATOL + itol * abs(want)) + 1e-12:
+                    ctx.oracle(desc, "mux_current_attribution", "pmux", trig,
+                               dict(base, input=q, input_iout=rows[q]["iout"], expected=want, mux_iin=r["iin"]))
+            # output = selected input minus the on-resistance configured for that input times Iout
+            if not inactive_in(c, ph):
+                rs = c["args"].get("rs", 0.0)
+                rk = abs(rs[k]) if isinstance(rs, list) else abs(rs)
+                vs = rows[sel]["vout"]
+                want = math.copysign(abs(vs) - rk * r["iout"], vs)
+                if abs(r["vout"] - want) > 8 * (solved.ATOL + vtol * abs(want)) + 1e-12:
+                    ctx.oracle(desc, "mux_vout", "pmux", dict(trig, rs_list=isinstance(rs, list), rs_negative=(not isinstance(rs, list) and rs < 0)),
+                               dict(base, vout=r["vout"], expected=want, rs_k=rk, iout=r["iout"]))
+
+
+# --------------------------------------------------------------------------------------------------- C07
+
+def o_c07(ctx, desc, obs, model, kw):
+    comps = {c["name"]: c for c in desc["comps"]}
+    pars = declared_parents(desc)
+    first = {n: (q[0] if q else None) for n, q in pars.items()}
+    srcs = [c["name"] for c in desc["comps"] if c["kind"] == "source"]
+    multi = len(srcs) > 1
+    phs = desc.get("phases") or {}
+    tot_t = sum(phs.values()) if phs else 0.0
+    per_phase_tot = []
+    for p in obs["phases"]:
+        ph = p["phase"]
+        rows = {r["name"]: r for r in p["rows"]}
+        feed = feeders(desc, rows)
+        dom = {n: root_of(feed, first, n) for n in rows}
+        has_mux = any(c["kind"] == "pmux" for c in desc["comps"])
+        if multi:
+            for r in p["rows"]:
+                # components below a mux without a live input are powered by nobody: not judged
+                if any(comps[x]["kind"] == "pmux" and feed.get(x) is None for x in chain(feed, first, r["name"])):
+                    continue
+                if r.get("domain") != dom[r["name"]]:
+                    ctx.oracle(desc, "domain_is_powering_source", comps[r["name"]]["kind"], {"has_mux": has_mux},
+                               {"phase": ph, "row": r["name"], "reported": r.get("domain"), "expected": dom[r["name"]]})
+            subs = {s["name"]: s for s in p["subs"]}
+            for s in srcs:
+                sub = subs.get("Subsystem " + s)
+                if sub is None:
+                    ctx.oracle(desc, "subsystem_row_present", "system", {}, {"phase": ph, "source": s})
+                    continue
+                sr = rows[s]
+                members = [r for r in p["rows"] if dom[r["name"]] == s]
+                loss = sum(r["loss"] for r in members)
+                t = sum(ptol(r, kw) for r in members) + 1e-9 * abs(loss)
+                det = {"phase": ph, "subsystem": s, "row": sub, "members": [r["name"] for r in members]}
+                if not solved.close(sub["vin"], sr["vin"]) or not solved.close(sub["iout"], sr["iout"]) or not solved.close(sub["pwr"], sr["pwr"]):
+                    ctx.oracle(desc, "subsystem_source_cells", "system", {"has_mux": has_mux}, det)
+                if abs(sub["loss"] - loss) > t:
+                    ctx.oracle(desc, "subsystem_loss_sum", "system", {"has_mux": has_mux}, dict(det, expected_loss=loss))
+                if sr["pwr"] > t:
+                    want = 100.0 * abs((sr["pwr"] - sub["loss"]) / sr["pwr"])
+                    if abs(sub["eff"] - want) > 1e-6:
+                        ctx.oracle(desc, "subsystem_eff", "system", {}, dict(det, expected_eff=want))
+                if "ener" in sub and sub["ener"] is not None:
+                    want = energy(phs, ph, sub["pwr"])
+                    if not solved.close(sub["ener"], want, rel=1e-9):
+                        ctx.oracle(desc, "subsystem_energy", "system", {}, dict(det, expected=want))
+        tot = p["total"]
+        P = sum(rows[s]["pwr"] for s in srcs)
+        L = sum(r["loss"] for r in p["rows"])
+        t = sum(ptol(r, kw) for r in p["rows"]) + 1e-9 * (abs(P) + abs(L))
+        det = {"phase": ph, "total": tot}
+        if abs(tot["pwr"] - P) > t or abs(tot["loss"] - L) > t:
+            ctx.oracle(desc, "total_sums", "system", {"multi_source": multi, "has_mux": has_mux}, dict(det, sources_power=P, all_losses=L))
+        if tot["pwr"] > t:
+            want = 100.0 * abs((tot["pwr"] - tot["loss"]) / tot["pwr"])
+            if abs(tot["eff"] - want) > 1e-6:
+                ctx.oracle(desc, "total_eff", "system", {}, dict(det, expected=want))
+            neg = any(c["kind"] == "source" and c["args"]["vo"] < 0 and abs(c["args"].get("rs", 0)) > 0 for c in desc["comps"])
+            if tot["eff"] > 100.0 + 1e-6 + 100 * t / tot["pwr"]:
+                ctx.oracle(desc, "total_eff_le_100", "system", {"neg_source_rs": neg}, det)
+        if "ener" in tot and tot["ener"] is not None:
+            want = energy(phs, ph, tot["pwr"])
+            if not solved.close(tot["ener"], want, rel=1e-9):
+                ctx.oracle(desc, "total_energy", "system", {}, dict(det, expected=want))
+            for r in p["rows"]:
+                if not solved.close(r["ener"], energy(phs, ph, r["pwr"]), rel=1e-9):
+                    ctx.oracle(desc, "row_energy", comps[r["name"]]["kind"], {}, {"phase": ph, "row": r["name"], "ener": r["ener"],
+                                                                                    "expected": energy(phs, ph, r["pwr"])})
+        per_phase_tot.append((ph, tot))
+    if len(obs["phases"]) > 1:
+        avg = obs["avg"]
+        if avg is None:
+            ctx.oracle(desc, "average_row_present", "system", {}, {})
+            return
+        for col in ("pwr", "loss", "eff"):
+            want = sum(phs[ph] * t[col] for ph, t in per_phase_tot) / tot_t
+            if not solved.close(avg[col], want, rel=1e-9):
+                ctx.oracle(desc, "average_" + col, "system", {}, {"avg": avg, "expected": want})
+        if avg.get("ener") is not None:
+            if not solved.close(avg["ener"], 24.0 * avg["pwr"], rel=1e-9):
+                ctx.oracle(desc, "average_energy", "system", {}, {"avg": avg})
+            s = sum(t["ener"] for _, t in per_phase_tot)
+            if not solved.close(s, avg["ener"], rel=1e-9):
+                ctx.oracle(desc, "phase_energies_add_up", "system", {}, {"sum_of_phase_energies": s, "average_energy": avg["ener"]})
+
+
+def chain(feed, first, n):
+    out, seen = [], set()
+    while n is not None and n not in seen:
+        seen.add(n)
+        out.append(n)
+        f = feed.get(n)
+        n = f if f is not None else None
+    return out
+
+
+def energy(phs, ph, pwr):
+    if ph == "" or not phs:
+        return 24.0 * pwr
+    return pwr * 24.0 * phs[ph] / sum(phs.values())
+
+
+# --------------------------------------------------------------------------------------------------- C08
+
+RAILCOLS = {"Phase": "phase", "Rail": "rail", "Voltage (V)": "volt", "Current (A)": "curr", "Power (W)": "pwr",
+            "Loss (W)": "loss", "Efficiency (%)": "eff", "Warnings": "warn"}
+
+
+def observe_rails(df):
+    if df is None:
+        return []
+    out = []
+    for _, r in df.iterrows():
+        d = {RAILCOLS[c]: r[c] for c in df.columns if c in RAILCOLS}
+        d.setdefault("phase", "")
+        for k in ("volt", "curr", "pwr", "loss", "eff"):
+            d[k] = float(d[k])
+        out.append(d)
+    return out
+
+
+def warn_tokens(s):
+    """the set of limit tokens in a warning text ('vi ii, tp' -> {vi, ii, tp})"""
+    return set(s.replace(",", " ").split())
+
+
+def o_c08(ctx, desc, obs, rails, kw):
+    """rails: observed rail_rep() rows (list of dicts); obs: solve() table of the same call arguments"""
+    got = {(r["phase"], r["rail"]): r for r in rails}
+    if len(got) != len(rails):
+        ctx.oracle(desc, "rail_rows_unique", "rail_rep", {}, {"rows": [(r["phase"], r["rail"]) for r in rails]})
+    want_keys = set()
+    for p in obs["phases"]:
+        ph = p["phase"]
+        rows = {r["name"]: r for r in p["rows"]}
+        by = {}
+        for r in p["rows"]:
+            if r.get("railIn"):
+                by.setdefault(r["railIn"], []).append(r)
+        owner = {c["rail"]: c["name"] for c in desc["comps"] if c.get("rail") and c["kind"] not in LOADS}
+        for rail, members in by.items():
+            want_keys.add((ph, rail))
+            g = got.get((ph, rail))
+            det = {"phase": ph, "rail": rail, "members": [m["name"] for m in members], "row": g}
+            if g is None:
+                ctx.oracle(desc, "rail_row_present", "rail_rep", {}, det)
+                continue
+            t = sum(ptol(m, kw) for m in members)
+            if not solved.close(g["volt"], rows[owner[rail]]["vout"]):
+                ctx.oracle(desc, "rail_voltage", "rail_rep", {}, dict(det, owner_vout=rows[owner[rail]]["vout"]))
+            for col, src in (("curr", "iin"), ("pwr", "pwr"), ("loss", "loss")):
+                s = sum(m[src] for m in members)
+                if abs(g[col] - s) > t + 1e-9 * abs(s):
+                    ctx.oracle(desc, "rail_sum_" + col, "rail_rep", {}, dict(det, expected=s))
+            wu = set()
+            for m in members:
+                wu |= warn_tokens(m["warn"])
+            if warn_tokens(g["warn"]) != wu:
+                nd = len(set(m["warn"] for m in members))
+                ctx.oracle(desc, "rail_warnings_union", "rail_rep", {"distinct_member_texts": min(nd, 2)},
+                           dict(det, expected=sorted(wu), member_warnings=[m["warn"] for m in members]))
+    extra = set(got) - want_keys
+    if extra:
+        ctx.oracle(desc, "rail_rows_exact", "rail_rep", {}, {"unexpected_rows": sorted(extra)})
+
+
+# --------------------------------------------------------------------------------------------------- C09
+
+LIMIT_KEYS = ["vi", "vo", "vd", "ii", "io", "pi", "po", "pl", "tr", "tp"]
+APPLICABLE = {"source": ["io", "po", "pl"], "pload": ["vi", "ii", "tr", "tp"], "iload": ["vi", "pi", "tr", "tp"],
+              "rload": ["vi", "ii", "pi", "tr", "tp"],
+              "converter": ["vi", "vo", "ii", "io", "pi", "po", "pl", "tr", "tp"]}
+DEFAULT_LIM = {k: [0.0, 1.0e6] for k in LIMIT_KEYS}
+DEFAULT_LIM["tp"] = [-1.0e6, 1.0e6]
+
+
+def row_quantities(r):
+    q = {"vi": r["vin"], "vo": r["vout"], "vd": abs(r["vin"]) - abs(r["vout"]), "ii": r["iin"], "io": r["iout"],
+         "pi": r["pwr"], "po": r["pwr"] - r["loss"], "pl": r["loss"]}
+    if r.get("tr") is not None:
+        q["tr"], q["tp"] = r["tr"], r["tp"]
+    return q
+
+
+def o_c09(ctx, desc, obs, model, kw):
+    comps = {c["name"]: c for c in desc["comps"]}
+    pars = declared_parents(desc)
+    first = {n: (q[0] if q else None) for n, q in pars.items()}
+    srcs = [c["name"] for c in desc["comps"] if c["kind"] == "source"]
+    for p in obs["phases"]:
+        ph = p["phase"]
+        rows = {r["name"]: r for r in p["rows"]}
+        feed = feeders(desc, rows)
+        anyw = False
+        by_dom = {}
+        for r in p["rows"]:
+            c = comps[r["name"]]
+            k = c["kind"]
+            q = row_quantities(r)
+            lim = c["args"].get("limits") or {}
+            want = set()
+            pc = c.get("pconf")
+            silent = k not in ("source", "rloss", "vloss") and bool(pc) and ph not in pc
+            if not silent:
+                for key in APPLICABLE.get(k, LIMIT_KEYS):
+                    if key not in q:
+                        continue
+                    lo, hi = lim.get(key, DEFAULT_LIM[key])
+                    x = q[key]
+                    if key == "tp":
+                        out = x > hi or x < lo
+                    else:
+                        out = abs(x) > abs(hi) or abs(x) < abs(lo)
+                    if out:
+                        want.add(key)
+            got = set(r["warn"].split())
+            hidden = {"tr", "tp"} if "tr" not in q else set()
+            if (got - hidden) != (want - hidden):
+                ctx.oracle(desc, "warn_iff_out_of_range", k, {"silent_phase": silent},
+                           {"phase": ph, "row": r["name"], "warnings": r["warn"], "expected": sorted(want),
+                            "quantities": q, "limits": lim})
+            if r["warn"]:
+                anyw = True
+                by_dom.setdefault(root_of(feed, first, r["name"]), []).append(r["name"])
+        for s in p["subs"]:
+            src = s["name"][len("Subsystem "):]
+            want = "Yes" if by_dom.get(src) else ""
+            if s["warn"] != want:
+                ctx.oracle(desc, "subsystem_rollup", "system", {}, {"phase": ph, "subsystem": src, "cell": s["warn"],
+                                                                      "warning_components": by_dom.get(src, [])})
+        if p["total"] is not None and p["total"]["warn"] != ("Yes" if anyw else ""):
+            ctx.oracle(desc, "total_rollup", "system", {}, {"phase": ph, "cell": p["total"]["warn"], "any_component_warning": anyw})
